@@ -34,6 +34,9 @@ VARIABLES stack,  \* open containers, innermost last
 
 vars == <<stack, pos, root, nn, gaps>>
 
+\* key palette for the .cfg files (tuples cannot be written in a cfg): "a", "b"
+KeysAB == {<<97>>, <<98>>}
+
 NoRoot == [t |-> "none"]
 NoKey == [s |-> -2, e |-> -2, cp |-> <<>>]
 
@@ -41,13 +44,13 @@ NoKey == [s |-> -2, e |-> -2, cp |-> <<>>]
 Frame(t, s) == [t |-> t, s |-> s, items |-> <<>>, pk |-> NoKey]
 
 Top == stack[Len(stack)]
-Done == stack = <<>> /\ root # NoRoot
+Done == stack = <<>> /\ root.t # "none"
 
 CQ == ~Yaml
 
 \* a value may be written here: at the root, in an array, after a key
 WantsValue ==
-  IF stack = <<>> THEN root = NoRoot
+  IF stack = <<>> THEN root.t = "none"
   ELSE Top.t = "arr" \/ Top.pk # NoKey
 WantsKey == stack # <<>> /\ Top.t = "obj" /\ Top.pk = NoKey
 
@@ -63,8 +66,7 @@ Deliver(stk, val) ==
                 ELSE [f EXCEPT !.items = Append(@, val)]
        IN <<[stk EXCEPT ![Len(stk)] = g], NoRoot>>
 
-Ws == /\ ~(Done /\ pos = 0)
-      /\ gaps < MaxGap
+Ws == /\ gaps < MaxGap
       /\ pos' = pos + 1 /\ gaps' = gaps + 1
       /\ UNCHANGED <<stack, root, nn>>
 
@@ -106,8 +108,7 @@ Open ==
 OpenVirtual ==
   /\ Yaml /\ WantsValue /\ nn + 1 < MaxNodes
   /\ \E t \in {"obj", "arr"} :
-       /\ stack' = Append([stack EXCEPT ![Len(stack)] =
-                             IF Sep = 1 /\ FALSE THEN @ ELSE @], Frame(t, -1))
+       /\ stack' = Append(stack, Frame(t, -1))
        /\ pos' = pos + Sep
   /\ nn' = nn + 1
   /\ UNCHANGED <<root, gaps>>
@@ -146,33 +147,36 @@ Next ==
 Spec == Init /\ [][Next]_vars
 
 \* ------------------------------------------------------------------------
-T == Tokens(root)
-
+\* (the token list is bound by LET inside each invariant: TLC evaluates a LET definition once
+\* per state, a global operator at every use)
 InvLayout == Done => WellFormed(root, pos) /\ (AllowDup \/ NoDupKeys(root))
 
-InvUnique == Done => \A off \in 0..(pos - 1) : Cardinality(HitSet(T, off, CQ)) <= 1
+InvUnique ==
+  Done => LET T == Tokens(root)
+          IN \A off \in 0..(pos - 1) : Cardinality(HitSet(T, off, CQ)) <= 1
 
 InvInnermost ==
-  Done => \A off \in 0..(pos - 1) :
-            LET d == Deepest(root, <<>>, off)
-                \* off lies inside the innermost key/scalar, or on the innermost container's bracket
-                inner == IF d[2] = "key" THEN TRUE
-                         ELSE LET n == ValueAtPath(root, d[1])
-                              IN IF IsCont(n) THEN CQ /\ n.s = off
-                                 ELSE n.s <= off /\ off < n.e
-            IN /\ Qualifies(T, off, CQ) <=> inner
-               /\ Qualifies(T, off, CQ) =>
-                    LET k == NodeAt(T, off, CQ)
-                    IN k.path = d[1] /\ k.role = d[2] /\ k.s = d[3] /\ k.e = d[4]
+  Done => LET T == Tokens(root)
+          IN \A off \in 0..(pos - 1) :
+               LET d == Deepest(root, <<>>, off)
+                   \* off lies inside the innermost key/scalar, or on the innermost container's bracket
+                   inner == IF d[5] THEN CQ /\ d[3] = off
+                            ELSE d[3] <= off /\ off < d[4]
+                   q == Qualifies(T, off, CQ)
+               IN /\ q <=> inner
+                  /\ q => LET k == NodeAt(T, off, CQ)
+                          IN k.path = d[1] /\ k.role = d[2] /\ k.s = d[3] /\ k.e = d[4]
 
 InvPath ==
-  Done => \A i \in 1..Len(T) :
-            /\ SameNode(LocatedValue(root, T[i]), T[i].named)
-            /\ T[i].role = "val" => SameNode(T[i].own, T[i].named)
+  Done => LET T == Tokens(root)
+          IN \A i \in 1..Len(T) :
+               /\ SameNode(LocatedValue(root, T[i]), T[i].named)
+               /\ T[i].role = "val" => SameNode(T[i].own, T[i].named)
 
 \* every token is located from at least one offset unless it is virtual or a YAML container
 InvReach ==
-  Done => \A i \in 1..Len(T) :
-            (T[i].s >= 0 /\ (CQ \/ T[i].role = "key" \/ ~IsCont(T[i].own)))
-              => \E off \in 0..(pos - 1) : NodeAt(T, off, CQ) = T[i]
+  Done => LET T == Tokens(root)
+          IN \A i \in 1..Len(T) :
+               (T[i].s >= 0 /\ (CQ \/ T[i].role = "key" \/ ~IsCont(T[i].own)))
+                 => \E off \in 0..(pos - 1) : i \in HitSet(T, off, CQ)
 =============================================================================
